@@ -9,7 +9,7 @@ the symmetries of the reference facet.
 import itertools
 from fractions import Fraction as Fr
 
-from . import c09_gen
+from . import c03_oracle, c09_gen
 from .core import TranslateError, cq
 from .c09_gen import cpoly, cpolys, cqs
 from .c09_sym import Poly
@@ -55,10 +55,18 @@ def sym_map(gamma, nverts, cube):
     return out
 
 
+def lift(poly, nv):
+    """the same polynomial in nv >= poly.nv variables"""
+    if poly.nv == nv:
+        return poly
+    return Poly({k + (0,) * (nv - poly.nv): v for k, v in poly.t.items()}, nv)
+
+
 class Traces:
     def __init__(self, tr):
-        """tr: c09_gen.Translated"""
+        """tr: c09_gen.Translated (or TranslatedPP: extra formal scale variables after the coordinates)"""
         self.tr = tr
+        self.nscale = getattr(tr, 'nv', tr.dim) - tr.dim
         e = tr.elem
         rd = e.refdom
         self.name = tr.name
@@ -79,6 +87,9 @@ class Traces:
         self.slots = []
         for s, V in enumerate(facets):
             param = c09_gen.param_polys([p[v] for v in V], self.cube and d == 3)
+            npar = param[0].nv
+            # formal scales of the element stay formal: they become the variables after the facet parameters
+            param = [lift(q, npar + self.nscale) for q in param] + [Poly.var(npar + m, npar + self.nscale) for m in range(self.nscale)]
             att, keys = [], []
             for a, v in enumerate(V):
                 for k in range(nd):
@@ -140,7 +151,10 @@ class Traces:
                 if tgt not in self.keys:
                     raise TranslateError(f'{tr.name}: symmetry {gamma} maps {key} outside the facet closure')
                 perm.append(self.keys.index(tgt))
-            self.syms.append({'gamma': gamma, 'map': sym_map(gamma, nv, self.cube and d == 3), 'perm': perm,
+            gm = sym_map(gamma, nv, self.cube and d == 3)
+            npar = self.nparam
+            gm = [lift(q, npar + self.nscale) for q in gm] + [Poly.var(npar + m, npar + self.nscale) for m in range(self.nscale)]
+            self.syms.append({'gamma': gamma, 'map': gm, 'perm': perm,
                               'identity': list(gamma) == list(range(nv))})
 
     def trace(self, sl, b):
@@ -180,6 +194,27 @@ class Traces:
         return all(sl['signs'] == self.slots[0]['signs'] for sl in self.slots)
 
 
+def shift_certificate(T):
+    """coefficient vector and point at which the two one-sided traces of the configuration (cell A slot 1 direct, cell B
+    slot 2 reversed: a unit square and its neighbour listed with a cyclic shift) differ — certificate for Coq"""
+    syms = T.syms
+    if len(syms) != 2 or not syms[0]['identity']:
+        return None
+    rev = syms[1]
+    npar = T.nparam + T.nscale
+    for m in range(len(T.psi)):
+        a = T.psi[m][0]
+        b = T.psi[rev['perm'][m]][0].subst(rev['map'])
+        diff = a - b
+        if diff.t:
+            for num in (1, 3, 1, 5):
+                pt = [Fr(num, 4 if num < 5 else 8)] + [Fr(1)] * T.nscale
+                if diff(pt) != 0:
+                    coef = [Fr(1) if k == m else Fr(0) for k in range(len(T.psi))]
+                    return coef, pt
+    return None
+
+
 def cslot(sl):
     return (f'mkSlot {cpolys(sl["param"])}\n      [' + '; '.join(cqs(v) for v in sl['vecs']) + ']\n      ['
             + '; '.join(f'{i}%nat' for i in sl['att']) + f'] {cqs(sl["signs"])}')
@@ -211,9 +246,12 @@ def generate(translated, conforming, known_keys=()):
     """translated: dict name -> c09_gen.Translated; conforming: names with a continuity claim (value / normal /
     tangential / normal-normal).  Returns (chunks, summary text, info)"""
     groups, info = {}, {'elements': [], 'skipped': {}}
+    src_of = {}
     names, sym_names, sym_refuted, uni_names, uni_refuted = [], [], [], [], []
+    shift_refuted = []
     for n, tr in translated.items():
-        if n not in conforming:
+        label = getattr(tr, 'label', n)
+        if label not in conforming:
             info['skipped'][n] = 'no continuity claim (discontinuous / non-conforming by construction)'
             continue
         if n in TRACE_SPECIAL:
@@ -240,11 +278,18 @@ def generate(translated, conforming, known_keys=()):
               'symmetries_required': len(syms), 'invariant_under': [list(s['gamma']) for s in T.syms if T.sym_invariant(s)],
               'not_invariant_under': [list(s['gamma']) for s in T.syms if not T.sym_invariant(s)]}
         if tr.family == 'h1':
-            key = f'elem={n}:value-jump'
+            key = c03_oracle.fail_key(label, 'value-jump')
             ok_py = T.signs_plus() and all(T.sym_invariant(s) for s in syms)
             if key in known_keys and not ok_py:
                 txt.append(f'Lemma {n}_syms_refuted : telem_syms_ok {n}_t = false.\nProof. vm_compute. reflexivity. Qed.\n')
                 sym_refuted.append(n)
+                cert = shift_certificate(T) if rdn == 'RefQuad' else None
+                if cert is not None:
+                    coef, pt = cert
+                    txt.append(f'Definition {n}_shift : telem * (fsym * fsym * list Q * list Q) :=\n'
+                               f'  ({n}_t, (nth 0 {n}_allsyms (mkSym [] []), nth 1 {n}_allsyms (mkSym [] []), {cqs(coef)}, {cqs(pt)})).\n')
+                    txt.append(f'Lemma {n}_shift_jump : shift_refuted_ok {n}_shift = true.\nProof. vm_compute. reflexivity. Qed.\n')
+                    shift_refuted.append(n)
             else:
                 txt.append(f'Lemma {n}_syms : telem_syms_ok {n}_t = true.\nProof. vm_compute. reflexivity. Qed.\n')
                 sym_names.append(n)
@@ -257,14 +302,16 @@ def generate(translated, conforming, known_keys=()):
             else:
                 txt.append(f'Lemma {n}_signs : signs_uniform (t_slots {n}_t) = true.\nProof. vm_compute. reflexivity. Qed.\n')
                 uni_names.append(n)
-        groups.setdefault('C03_T_' + rdn, []).append((n, '\n'.join(txt)))
+        grp = 'C03_T_Legendre' if hasattr(tr, 'label') else 'C03_T_' + rdn
+        src_of[grp] = ('C09_P_' + type(tr.elem).__name__) if hasattr(tr, 'label') else ('C09_E_' + rdn)
+        groups.setdefault(grp, []).append((n, '\n'.join(txt)))
         info['elements'].append(el)
     chunks = {}
     for g, parts in groups.items():
-        rdn = g[len('C03_T_'):]
-        chunks[g] = HEADER + f'Require Import Gen.C09_E_{rdn}.\n\n' + '\n'.join(t for _, t in parts)
-    info['parts'] = {g: [(n, HEADER + f'Require Import Gen.C09_E_{g[len("C03_T_"):]}.\n\n' + t) for n, t in parts]
+        chunks[g] = HEADER + f'Require Import Gen.{src_of[g]}.\n\n' + '\n'.join(t for _, t in parts)
+    info['parts'] = {g: [(n, HEADER + f'Require Import Gen.{src_of[g]}.\n\n' + t) for n, t in parts]
                      for g, parts in groups.items()}
+    info['sources'] = sorted(set(src_of.values()))
 
     def forall_lemma(lname, pred, lst, items, suffix):
         body = ''.join(f'  apply Forall_cons; [exact {n}_{suffix}|].\n' for n in items)
@@ -275,11 +322,15 @@ def generate(translated, conforming, known_keys=()):
             'Definition vector_uniform_elements : list telem :=\n  [' + '; '.join(f'{n}_t' for n in uni_names) + '].\n',
             'Definition h1_symmetry_refuted : list telem :=\n  [' + '; '.join(f'{n}_t' for n in sym_refuted) + '].\n',
             'Definition vector_uniform_refuted : list telem :=\n  [' + '; '.join(f'{n}_t' for n in uni_refuted) + '].\n',
+            'Definition quadp_shift_refuted : list (telem * (fsym * fsym * list Q * list Q)) :=\n  ['
+            + '; '.join(f'{n}_shift' for n in shift_refuted) + '].\n',
+            forall_lemma('quadp_shift_refuted_ok', 'shift_refuted_ok t = true', 'quadp_shift_refuted', shift_refuted, 'shift_jump'),
             forall_lemma('all_traces_ok', 'telem_traces_ok t = true', 'traced_elements', names, 'traces'),
             forall_lemma('h1_syms_ok', 'telem_syms_ok t = true', 'h1_symmetric_elements', sym_names, 'syms'),
             forall_lemma('vector_signs_ok', 'signs_uniform (t_slots t) = true', 'vector_uniform_elements', uni_names, 'signs'),
             forall_lemma('h1_syms_refuted', 'telem_syms_ok t = false', 'h1_symmetry_refuted', sym_refuted, 'syms_refuted'),
             forall_lemma('vector_signs_refuted', 'signs_uniform (t_slots t) = false', 'vector_uniform_refuted', uni_refuted, 'signs_refuted')]
     info['names'] = {'traced': names, 'h1_symmetric': sym_names, 'vector_uniform': uni_names,
-                     'h1_symmetry_refuted': sym_refuted, 'vector_uniform_refuted': uni_refuted}
+                     'h1_symmetry_refuted': sym_refuted, 'vector_uniform_refuted': uni_refuted,
+                     'quadp_shift_refuted': shift_refuted}
     return chunks, '\n'.join(summ), info
